@@ -54,7 +54,8 @@ CHECKS = {
           "sendMessage: at every outbound frame a brand-new sqlite3 connection to each database file must read exactly what "
           "the server's own connection reads, and what the frame acknowledges (claimed/allocated/message) must be visible "
           "to that reader; PRAGMA synchronous >= FULL and a persistent journal are asserted. A seeded two-app exploration "
-          "covers sweeps that prune one app's channel and keep another's.",
+          "covers sweeps that prune one app's channel and keep another's; a seeded 'crowded' exploration starts with two "
+          "sides on a mailbox / a nameplate and a bound third side, so the refusal frames are checked too.",
      tech="explicit-state BFS of the implementation with an independent second database reader at every outbound frame"),
  "C10": dict(cat="fault_enumeration", ref="DESIGN.md §3.4, §4 C10",
      text="BFS over histories on file-backed databases (without / with usage db); during the last event of every history the "
@@ -70,7 +71,8 @@ CHECKS = {
           "Unicode identifiers); per command: welcome, ack-first with id echo, type+server_tx on every frame, ping/pong, "
           "malformed => exactly one error with orig, rows unchanged, others undisturbed, connection still usable; "
           "well-formed => never a validation error; no exception escapes onMessage. Three explorations: no welcome notices, "
-          "all notices, and --disallow-list with a third side arriving at a held nameplate. One known finding (F2).",
+          "all notices, --disallow-list with a third side arriving at a held nameplate, an expired mailbox, and a third "
+          "side whose open was refused `crowded` (then the full alphabet). One known finding (F2).",
      tech="explicit-state BFS of the implementation with a protocol-state ghost deciding the expected class of answer"),
  "C06": dict(cat="model_checking", ref="DESIGN.md §3.2, §4 C06",
      text="Lockstep product exploration: world 0 runs the full history mixing apps X and Y (identical names, sides, "
@@ -96,7 +98,8 @@ CHECKS = {
           "empty, every sweep removes every idle channel completely, sweeps stay on the P-lattice; (b) the timed skeleton "
           "family of C12; (c) fault injection: the first channel-db access of sweep k raises OperationalError for every k "
           "in the horizon of selected scenarios: the loop must stay scheduled and the next sweep must do the work; (d) a "
-          "file-backed exploration with one restart before quiescence (rows written by a previous process are swept too).",
+          "file-backed exploration with one restart before quiescence (rows written by a previous process are swept too); "
+          "(e) same-side connections with stale handles; (f) a second open on a connection that already closed.",
      tech="explicit-state BFS with a quiescence closure + timed scenario enumeration + per-sweep fault injection on the implementation"),
  "C14": dict(cat="model_checking", ref="DESIGN.md §3.2, §4 C14",
      text="Lockstep product: base history vs. the same history with ONE acknowledged claim/release/open/close re-sent "
@@ -108,7 +111,8 @@ CHECKS = {
      text="Usage database on, observation at commit granularity: each disappearance of a nameplates/mailboxes row <=> exactly "
           "one new usage row of that app, with started/waiting/total/result recomputed from the harness's own event log and "
           "the documented precedence; status row = number of subscribed connections. BFS over claim/release/open/close with "
-          "moods + timed skeletons + the complete classification family (1-4 sides x moods x close/expiry x open/claim).",
+          "moods + timed skeletons + the complete classification family (1-4 sides x moods x close/expiry x open/claim/"
+          "claim+release by all/claim+release by the first side only).",
      tech="explicit-state BFS + exhaustive scenario family on the implementation with a reference classification oracle"),
  "C16": dict(cat="model_checking", ref="DESIGN.md §4 C16",
      text="Through Options.parseOptions(--blur-usage=N): N x first-arrival residue x small/large multiple x every "
